@@ -7,7 +7,7 @@
     provider that could not be wrapped), the engine is run under every visit order and the case
     agrees if some order reproduces what was observed. *)
 From Zog Require Export Corr.EngineDSL Corr.Verdict.
-From Zog Require Import Spec.Satisfies.
+From Zog Require Import Spec.Satisfies Model.Fmt Gen.Tables.
 Import ListNotations.
 Open Scope string_scope.
 
@@ -19,7 +19,9 @@ Record observed := OBS {
   ob_badfirst : bool; ob_calls : list ocall; ob_dest : dval }.
 Record ecase := EC {
   ec_id : nat; ec_mode : mode; ec_sch : sch; ec_data : data; ec_dest0 : dval;
-  ec_known : bool; ec_collide : bool; ec_ctxok : bool; ec_repeat : bool; ec_obs : observed }.
+  ec_known : bool; ec_collide : bool; ec_ctxok : bool; ec_repeat : bool;
+  ec_fmt : option string;      (* the execution's formatter, if one was given: it sets prefix ++ code *)
+  ec_obs : observed }.
 
 (** ** equalities *)
 Fixpoint dval_same (a b : dval) {struct a} : bool :=
@@ -76,14 +78,22 @@ Definition cbkind_eqb (a b : cbkind) : bool :=
 Definition key_of (p : string) : string := if is_empty p then "$root" else p.
 Definition params_eqb := list_eqb (pair_eqb String.eqb String.eqb).
 
-(* level 0: path+code; 1: +dtype; 2: +params; 3: + explicit message; 4: + has wrapped error *)
-Definition issue_agrees (lvl : nat) (i : issue) (o : oissue) : bool :=
+(** the message an issue without a Message option gets: the execution's formatter, else the
+    default formatter over the shipped default language map (regenerated from the code) *)
+Definition default_message (fmt : option string) (o : oissue) : string :=
+  match fmt with
+  | Some pre => (pre ++ oi_code o)%string
+  | None => default_format lang_default (oi_dtype o) (oi_code o) (oi_params o) ""
+  end.
+
+(* level 0: path+code; 1: +dtype; 2: +params; 3: + message (explicit or formatted); 4: + has wrapped error *)
+Definition issue_agrees_f (fmt : option string) (lvl : nat) (i : issue) (o : oissue) : bool :=
   String.eqb (i_path i) (oi_path o) && String.eqb (i_code i) (oi_code o)
   && (Nat.ltb lvl 1 || String.eqb (i_dtype i) (oi_dtype o))
   && (Nat.ltb lvl 2 || params_eqb (i_params i) (oi_params o))
   && (Nat.ltb lvl 3 || match i_msg i with
                        | Some m => String.eqb m opaque_msg || String.eqb m (oi_msg o)
-                       | None => negb (is_empty (oi_msg o)) || String.eqb (i_dtype i) "custom" || is_empty (i_code i)
+                       | None => String.eqb (oi_msg o) (default_message fmt o)
                        end)
   && (Nat.ltb lvl 4 || Bool.eqb (match i_err i with Some _ => true | None => false end) (oi_haserr o)).
 
@@ -111,21 +121,25 @@ Definition grouped (is : list issue) : imap :=
   fold_left (fun m i => imap_append (key_of (i_path i)) i m) is [].
 
 (** do the observed keys carry the model's issues (at projection level [lvl])? *)
-Definition issues_agree (lvl : nat) (exact_order : bool) (listmode : bool) (is : list issue) (o : observed) : bool :=
+Definition issue_agrees := issue_agrees_f None.
+
+Definition issues_agree_f (fmt : option string) (lvl : nat) (exact_order : bool) (listmode : bool) (is : list issue) (o : observed) : bool :=
   if listmode then
     match ob_keys o with
     | [] => match is with [] => true | _ => false end
-    | [(_, l)] => list_agrees (issue_agrees lvl) is l
+    | [(_, l)] => list_agrees (issue_agrees_f fmt lvl) is l
     | _ => false
     end
   else
     let g := grouped is in
     Nat.eqb (length g) (length (ob_keys o)) &&
     forallb (fun kl => match alookup (fst kl) g with
-                       | Some l => if exact_order then list_agrees (issue_agrees lvl) l (snd kl)
-                                   else perm_agrees (issue_agrees lvl) l (snd kl)
+                       | Some l => if exact_order then list_agrees (issue_agrees_f fmt lvl) l (snd kl)
+                                   else perm_agrees (issue_agrees_f fmt lvl) l (snd kl)
                        | None => false
                        end) (ob_keys o).
+
+Definition issues_agree := issues_agree_f None.
 
 Definition first_agrees (known : bool) (is : list issue) (o : observed) : bool :=
   negb (ob_badfirst o) &&
@@ -210,8 +224,8 @@ Definition tags_for (c : ecase) (s : sch) : list string :=
    ++ t "issues" (issues_agree 0 exact lm is o)
    ++ t "dtype" (issues_agree 1 exact lm is o)
    ++ t "params" (issues_agree 2 exact lm is o)
-   ++ t "msg" (issues_agree 3 exact lm is o)
-   ++ t "haserr" (issues_agree 4 exact lm is o)
+   ++ t "msg" (issues_agree_f (ec_fmt c) 3 exact lm is o)
+   ++ t "haserr" (issues_agree_f (ec_fmt c) 4 exact lm is o)
    ++ t "first" (first_agrees known is o)
    ++ t "dest" (dval_same (o_dest out) (ob_dest o))
    ++ t "calls" (calls_agree false known (o_calls out) o)
